@@ -25,7 +25,7 @@ from pyvc.values import Sym, SInt, SBool, SObj, SOpaque, Unsupported, PyRaise, z
 from pyvc.ops import ClassRef, Builtin
 from pyvc import ops, extract
 from pyvc.nparr import Vec
-from pyvc.pybuiltins import BuiltinsModule, FunctoolsModule, OperatorModule, set_builtin, iter_builtin
+from pyvc.pybuiltins import BuiltinsModule, FunctoolsModule, OperatorModule, set_builtin, iter_builtin, divmod_char, divmod_builtin
 
 PROP = 'C07'
 HERE = os.path.dirname(os.path.dirname(os.path.abspath(__file__)))
@@ -60,6 +60,19 @@ def norm_len(x):
     raise Unsupported('axis length %r (array-valued lengths are outside this kernel)' % (x,))
 
 
+class LInt(SInt):
+    """An axis length: a Python int whose // and % are stated in characteristic form (exact, see divmod_char)."""
+
+    def binop(self, ctx, op, other, reflected):
+        if op in ('//', '%') and is_intlike(other):
+            a, b = (other, self) if reflected else (self, other)
+            if not ctx.branch(zint(b) != 0):
+                raise PyRaise('ZeroDivisionError')
+            q, r = divmod_char(ctx, a, b)
+            return LInt(q if op == '//' else r)
+        return SInt.binop(self, ctx, op, other, reflected)
+
+
 # ------------------------------------------------------------------------------------------------ array model --
 
 class FArr(Sym):
@@ -72,7 +85,7 @@ class FArr(Sym):
         self.op = op  # how it was made (evaluable class name, args) -- for the few clauses that look at it
 
     def shape(self):
-        return tuple(x if isinstance(x, int) else SInt(x) for x in self.lens)
+        return tuple(x if isinstance(x, int) else LInt(x) for x in self.lens)
 
     def getattr(self, ctx, name):
         if name == 'shape':
@@ -355,7 +368,7 @@ class World:
             'Array': ArrayClass(), '_Wrapper': self.wrapper, '_Transpose': TransposeClass(), '_Concatenate': ConcatenateClass(),
             '_Constant': self.constant, '_WithoutPoints': lambda ctx, x: x,
             'evaluable': Ev(), 'numbers': Numbers(), 'numeric': Numeric(), 'types': Types(), 'util': Util(), 'numpy': NumpyModule(),
-            'builtins': BuiltinsModule({'set': set_builtin, 'iter': iter_builtin}), 'functools': FunctoolsModule(), 'operator': OperatorModule(),
+            'builtins': BuiltinsModule({'set': set_builtin, 'iter': iter_builtin, 'divmod': divmod_builtin}), 'functools': FunctoolsModule(), 'operator': OperatorModule(),
             'set': set_builtin, 'iter': iter_builtin,
             '_dtypes': DTYPES, '_join_arguments': lambda ctx, it: (ops.iterate(ctx, it), {})[1],
             'isint': lambda ctx, x: is_intlike(x),
@@ -1015,10 +1028,178 @@ def indexing_contracts():
     return cs
 
 
+# ------------------------------------------------------------------------------------------- 5. reshape --
+
+def zprod(xs):
+    r = z3.IntVal(1)
+    for x in xs:
+        r = r * x
+    return r
+
+
+class Reshape(ShapeContract):
+    """numpy.reshape(array, newshape): at most one -1, which is inferred as size / product(others); accepted exactly
+    when the sizes match (no -1) or the product of the others divides the size (one -1; NumPy also rejects a zero
+    product); the announced shape is the requested one with -1 resolved.  The body lowers this to ravel / unravel /
+    insert-axis / transpose steps: every intermediate announced shape is executed from the real code, and none of its
+    internal assertions may fail for an accepted request.
+
+    domain 'positive': all lengths >= 1 (non-empty arrays, the live contracts);
+    domain 'nonneg'  : lengths >= 0  -- PARKED, fails on the unchanged tree (zero-length axes: ZeroDivisionError / AssertionError);
+    domain 'any'     : requested lengths any integer != -1 -- PARKED, fails (negative lengths other than -1 are accepted)."""
+    fn = 'function:__implementations__.reshape'
+
+    def __init__(self, ndim, pattern, domain='positive', as_int=False):
+        self.ndim, self.pattern, self.domain, self.as_int = ndim, tuple(pattern), domain, as_int
+        self.label = 'ndim=%d,newshape=%s' % (ndim, '-1' if as_int else '(' + ','.join('n' if p == 's' else '-1' for p in pattern) + ')') + ('' if domain == 'positive' else ',domain=' + domain)
+        self.bounded = 'rank (<= 3), len(newshape) (<= 3) and the position of -1 fixed; every length symbolic (%s)' % {'positive': '>= 1', 'nonneg': '>= 0', 'any': 'requested: any integer but -1'}[domain]
+        self.native_recipe = ('reshape', {'ndim': ndim, 'pattern': list(pattern), 'as_int': as_int})
+        self.expect_return = self.pattern.count(-1) <= 1
+
+    def setup(self, cx):
+        w, g = self.world()
+        lo = 1 if self.domain == 'positive' else 0
+        lens = self.fresh_lens(cx, 'n', self.ndim, lo=lo)
+        req = []
+        for k, p in enumerate(self.pattern):
+            if p == -1:
+                req.append(None)
+            else:
+                v = cx.int('d%d' % k)
+                cx.assume(v != -1 if self.domain == 'any' else v >= lo)
+                req.append(v)
+        newshape = -1 if self.as_int else tuple(-1 if r is None else SInt(r) for r in req)
+        return State(args=(FArr(w, lens, FLOAT), newshape), lens=lens, req=req, world=w, globals=g)
+
+    def spec(self, cx, S):
+        """(ok, others, size); `others divides size` is stated through the characteristic form of divmod (exact)"""
+        size = zprod(S.lens)
+        others = zprod([r for r in S.req if r is not None])
+        nonneg = z3.And(*[r >= 0 for r in S.req if r is not None]) if any(r is not None for r in S.req) else z3.BoolVal(True)
+        if S.req.count(None) == 0:
+            return z3.And(nonneg, others == size), others, size
+        _, rem = divmod_char(cx, SInt(size), SInt(others))
+        return z3.And(nonneg, others != 0, rem == 0), others, size
+
+    def raises(self, cx, S, e):
+        if S.req.count(None) > 1:
+            return True
+        ok, _, _ = self.spec(cx, S)
+        if e.exc == 'ValueError' or (e.exc == 'ZeroDivisionError' and self.domain != 'positive'):
+            return z3.Not(ok)
+        return False
+
+    def ensures(self, cx, S, result):
+        if S.req.count(None) > 1:
+            return [('rejects-what-numpy-rejects', z3.BoolVal(False))]
+        ok, others, size = self.spec(cx, S)
+        got = result_lens(result)
+        if len(got) != len(S.req):
+            return [('numpy-shape', z3.BoolVal(False))]
+        parts = []
+        for gl, r in zip(got, S.req):
+            parts.append(zl(gl) == r if r is not None else zl(gl) * others == size)
+        return [('numpy-accepts', ok), ('numpy-shape', z3.And(*parts) if parts else z3.BoolVal(True)), ('dtype-kept', z3.BoolVal(result.dtype == FLOAT))]
+
+
+class Ravel(Reshape):
+    """numpy.ravel(array): one axis of length size."""
+    fn = 'function:__implementations__.ravel'
+
+    def __init__(self, ndim):
+        Reshape.__init__(self, ndim, (-1,), as_int=True)
+        self.label = 'ndim=%d' % ndim
+        self.native_recipe = ('reshape', {'ndim': ndim, 'pattern': [-1], 'as_int': True, 'ravel': True})
+
+    def run(self, cx, S, call):
+        return call(self.fn, S.args[0])
+
+
+def reshape_contracts():
+    live, parked = [], []
+    for ndim, pat in [(0, ()), (0, ('s',)), (0, ('s', 's')), (0, (-1,)), (1, ()), (1, ('s',)), (1, (-1,)), (1, ('s', 's')), (1, ('s', -1)), (1, (-1, 's')),
+                      (2, ('s',)), (2, (-1,)), (2, ('s', 's')), (2, (-1, 's')), (2, ('s', -1)), (2, ()),
+                      (1, (-1, -1)), (2, (-1, 's', -1))]:
+        live.append(Reshape(ndim, pat))
+    live += [Reshape(2, (-1,), as_int=True), Ravel(0), Ravel(1), Ravel(2)]
+    live += [Reshape(3, ('s',)), Reshape(3, (-1,)), Reshape(3, ('s', 's')), Reshape(1, ('s', 's', 's')), Reshape(3, (-1, 's')), Ravel(3)]
+    parked += [Reshape(2, ('s', 's'), domain='nonneg'), Reshape(2, ('s',), domain='nonneg'), Reshape(2, (-1,), domain='nonneg'), Reshape(1, ('s', -1), domain='nonneg'),
+               Reshape(1, ('s', 's'), domain='any')]
+    return live, parked
+
+
+# ------------------------------------------------------------------------------ 6. element kind (dtype) join --
+
+class Typecast(ShapeContract):
+    """typecast_arrays(*arrays, min_dtype): every operand is cast to the JOIN of the operands' kinds and min_dtype in
+    the chain bool < int < float < complex (NumPy's result kind for these four kinds); shapes are untouched.
+    Ground table: every pair of kinds, every min_dtype with one operand, a few triples."""
+    fn = 'function:typecast_arrays'
+
+    def __init__(self, dtypes, min_dtype=None):
+        self.dtypes, self.min_dtype = tuple(dtypes), min_dtype
+        self.label = 'kinds=%s' % ','.join(d.name for d in dtypes) + (',min_dtype=' + min_dtype.name if min_dtype else '')
+        self.bounded = 'ground table over the four element kinds (<= 3 operands of rank 1)'
+        self.native_recipe = ('typecast', {'dtypes': [d.name for d in dtypes], 'min_dtype': min_dtype.name if min_dtype else None})
+
+    def setup(self, cx):
+        w, g = self.world()
+        shapes = [self.fresh_lens(cx, 's%d_' % i, 1) for i in range(len(self.dtypes))]
+        arrays = tuple(FArr(w, s, d) for s, d in zip(shapes, self.dtypes))
+        return State(args=arrays, kwargs=({'min_dtype': self.min_dtype} if self.min_dtype else {}), shapes=shapes, world=w, globals=g)
+
+    def ensures(self, cx, S, result):
+        want = np_join(self.dtypes + ((self.min_dtype,) if self.min_dtype else ()))
+        if not isinstance(result, tuple) or len(result) != len(self.dtypes):
+            return [('one-result-per-operand', z3.BoolVal(False))]
+        return [('numpy-kind', z3.BoolVal(all(isinstance(r, FArr) and r.dtype == want for r in result))),
+                ('shapes-kept', z3.And(*[eqshape(result_lens(r), s) for r, s in zip(result, S.shapes)]))]
+
+
+class BroadcastedArrays(ShapeContract):
+    """_Wrapper.broadcasted_arrays(op, a, b) (the route of every binary ufunc): announced shape = numpy.broadcast_shapes,
+    element kind = join of the kinds; ValueError exactly when the shapes do not broadcast."""
+    fn = 'function:_Wrapper.broadcasted_arrays'
+
+    def __init__(self, ranks, dtypes):
+        self.ranks, self.dtypes = tuple(ranks), tuple(dtypes)
+        self.label = 'ranks=%s,kinds=%s' % (','.join(map(str, ranks)), ','.join(d.name for d in dtypes))
+        self.bounded = 'two operands of fixed rank (<= 2) and kind; every length symbolic (>= 0)'
+        self.native_recipe = ('broadcasted', {'ranks': list(ranks), 'dtypes': [d.name for d in dtypes]})
+
+    def setup(self, cx):
+        w, g = self.world()
+        shapes = [self.fresh_lens(cx, 's%d_' % i, r) for i, r in enumerate(self.ranks)]
+        arrays = tuple(FArr(w, s, d) for s, d in zip(shapes, self.dtypes))
+        return State(args=(g['_Wrapper'], ClassRef('add')) + arrays, shapes=shapes, world=w, globals=g)
+
+    def raises(self, cx, S, e):
+        ok, _ = np_broadcast(S.shapes)
+        if e.exc == 'ValueError':
+            return z3.Not(ok)
+        return False
+
+    def ensures(self, cx, S, result):
+        ok, want = np_broadcast(S.shapes)
+        return [('numpy-accepts', ok), ('numpy-shape', eqshape(result_lens(result), want)), ('numpy-kind', z3.BoolVal(result.dtype == np_join(self.dtypes)))]
+
+
+def dtype_contracts():
+    cs = [Typecast((a, b)) for a in DTYPES for b in DTYPES]
+    cs += [Typecast((a,), min_dtype=m) for a in DTYPES for m in DTYPES]
+    cs += [Typecast((BOOL, INT, BOOL)), Typecast((INT, COMPLEX, FLOAT)), Typecast((BOOL, BOOL), min_dtype=FLOAT), Typecast((FLOAT, INT), min_dtype=BOOL)]
+    cs += [BroadcastedArrays((1, 2), (INT, FLOAT)), BroadcastedArrays((0, 1), (BOOL, BOOL)), BroadcastedArrays((2, 2), (COMPLEX, INT))]
+    return cs
+
+
 PARKED = []
 
 
 def contracts():
     live, parked = transpose_contracts()
-    PARKED[:] = parked + [Unravel(1, 0, size_check=True), Unravel(2, 1, size_check=True)]
-    return broadcasting_contracts() + live + joining_contracts() + indexing_contracts()
+    rlive, rparked = reshape_contracts()
+    PARKED[:] = parked + rparked + [Unravel(1, 0, size_check=True), Unravel(2, 1, size_check=True)]
+    cs = broadcasting_contracts() + live + joining_contracts() + indexing_contracts() + rlive + dtype_contracts()
+    if os.environ.get('VERIF_C07_PARKED'):
+        cs += PARKED  # experiments only: these fail on the unchanged tree (candidate defects, notes/C07-shape.md)
+    return cs
